@@ -160,7 +160,7 @@ class IntraTransaction(AbstractTransaction):
         return self.fiat_fee
 
     def is_taxable(self) -> bool:
-        return self.fiat_fee > ZERO
+        return self.crypto_fee > ZERO
 
     def is_earning(self) -> bool:
         return False
